@@ -6,6 +6,7 @@ CONSTANTS
   KK = 2
   StaleC = 15
   RefreshKnownC = TRUE
+  RekeySortedC = TRUE
   ClosestKnownFinding = TRUE
 INVARIANT Structure
 INVARIANT AddSteps
